@@ -104,7 +104,7 @@ def gen(f):
         for key, m in o.state.heap.items():
             if key[0] != 'M': continue
             name = key[1]
-            if name in f.modifies or name.startswith(('len:#local', 'el:#local')): continue
+            if name in f.modifies or '#local' in name or '#ret:' in name: continue
             m0 = old.heap.get(key) or FMap(name, m.arity)
             if m is m0 or (m.base == m0.base and m.updates == m0.updates): continue
             vs = ['fr%d_%d' % (k, i) for i in range(m.arity)]
